@@ -53,9 +53,10 @@ def gen_dist(rng, k, binary=False, gate=None):
         sup = [o for o in full if o[-1] == sum((o[i] % 2) * 2 ** i for i in range(k)) and all(v < 2 for v in o[:-1])]
     elif pattern == 'dup':
         # two sources are copies of each other (a non-trivial Gacs-Korner meet)
-        sup = [o for o in full if o[0] == o[1]]
+        a, b = rng.sample(range(k), 2)
+        sup = [o for o in full if o[a] == o[b]]
         if rng.random() < 0.5:
-            sup = [o for o in sup if o[-1] == o[0] % sizes[-1]] or sup
+            sup = [o for o in sup if o[-1] == o[a] % sizes[-1]] or sup
     elif pattern == 'random':
         sup = rng.sample(full, rng.randint(2, len(full)))
     else:
@@ -90,6 +91,9 @@ def generate(rng, tier):
         else:
             d = gen_dist(rng, 2)
         cases.append({'d': d, 'cls': cls, 'perm': rng.random() < 0.6, 'explicit': rng.random() < 0.5})
+    # Gacs-Korner meets of three sources in which only some pair shares information
+    for i in range(4 if tier == 'quick' else 30):
+        cases.append({'d': gen_dist(rng, 3, gate='dup'), 'cls': 'PID_GK', 'perm': True, 'explicit': i % 2 == 0})
     return cases
 
 
